@@ -129,7 +129,7 @@ def scenarios(tier):
                            dict(script=canary_script(b't'), start_turn='idle')]
                 out.append(Scenario(
                     '%s/%s/canary@%s' % (mode, name, off), fa, flags_opts=fo, mode=mode, clients=clients,
-                    origins=og, dns=d, net=net, kinds='AF' if tier == 'quick' else 'AFO', horizon=600,
+                    origins=og, dns=d, net=net, kinds='AF' if tier == 'quick' else 'AFOE', horizon=600,
                     features={'mode': mode, 'role': role, 'adversary': name, 'canary_offset': str(off),
                               '_fault_clients': {'c0'}, '_fault_addrs': ADV_ADDRS}))
     return out + tls_front_scenarios(tier) + idle_scenarios(tier) + neighbour_scenarios(tier)
